@@ -42,7 +42,18 @@ pub fn site_signature(site: &str, message: &str) -> String
 			format!("{short}::{function}")
 		})
 		.clone();
-	let msg: String = crate::pool::normalise_message(message).chars().take(48).collect();
+	// A message that is the Debug dump of a value (typically a ValueType in an assertion) is
+	// reduced to a placeholder, so that one assertion site gives one signature.
+	let first_word: String = message.chars().take_while(|c| c.is_alphanumeric()).collect();
+	let rest = &message[first_word.len()..];
+	let msg: String = if !first_word.is_empty() && first_word.chars().next().unwrap().is_uppercase() && (rest.starts_with(" {") || rest.starts_with('(') || rest.is_empty())
+	{
+		"<value dump>".to_string()
+	}
+	else
+	{
+		crate::pool::normalise_message(message).chars().take(48).collect()
+	};
 	format!("{place}:{msg}")
 }
 
